@@ -324,6 +324,14 @@ func Gen(tier string, emit func(Case)) {
 			decoConfs = append(decoConfs, i)
 		}
 	}
+	// the remaining options that rewrite or move text: crossed with one comment at a time and with every placeholder filled at once
+	var decoConfsSingle []int
+	for i, d := range confDevs {
+		switch d.name {
+		case "should_use_unset", "else_if", "explicit_string_concat=false", "align_declaration_property", "sort_declaration", "break_compound_conditions=false", "indent_style=tab", "line_width=40":
+			decoConfsSingle = append(decoConfsSingle, i)
+		}
+	}
 	programsV(1, func(root *gen.Node, kind string, vec []int, wide int) {
 		toks := gen.Tokens(root)
 		type sl struct {
@@ -360,7 +368,11 @@ func Gen(tier string, emit func(Case)) {
 					labels[i] = rawSlot[0] + "/" + ck
 				}
 			}
-			for _, ci := range decoConfs {
+			cfs := decoConfs
+			if len(decos) == 1 || strings.HasPrefix(label, "all-slots") {
+				cfs = append(append([]int{}, decoConfs...), decoConfsSingle...)
+			}
+			for _, ci := range cfs {
 				cf := DefaultConf()
 				var devs []string
 				if ci >= 0 {
